@@ -133,7 +133,11 @@ def run(c, facts, tier):
         okf, detf = False, "the leading list is traversed %d times" % len(fed_t)
     from .. import innerval
 
-    EV, _why = innerval.cached(facts, b, an)
+    # the summary decides for lists of any length; where it does not recognise the statements, the inner function is
+    # evaluated on scenarios (vlib/innerval.py)
+    EV = None
+    if not okf:
+        EV, _why = innerval.cached(facts, b, an)
     if EV is not None:
         okf, detf = EV["ok_options"], innerval.how(EV) + (" — " + EV["detail"] if not EV["ok_options"] else "")
     c.ob("C13.leading", inner, "leading options are registered in input order", okf, detf)
@@ -158,7 +162,32 @@ def run(c, facts, tier):
         return o["v"] == "parsed" and peg.Grammar(b).open(o["ir"]) is not None and o["ir"]["t"] == "ref" and o["ir"]["fn"] == lexk
 
     trav = [t for t in S.traversals() if from_lex(t["over"]) and t["mode"] in ("map", "mutate")]
-    if EV is not None:
+    def _summary_decides_misplaced():
+        if len(trav) != 1:
+            return False
+        t = trav[0]
+        if t["adaptors"] or S.unknown:
+            return False
+        g_ok, i_ok, oth = None, None, []
+        for cs in t["cases"]:
+            for p in (rx.pat_cases(cs["pat"]) if cs["pat"] is not None else [None]):
+                pv = rx.pat_variant(p) if p is not None else None
+                if pv and pv[0] == "Token::Global":
+                    bind = rx.pat_bindings(p)
+                    ups = [x for x in cs["effects"] if opts is not None and S.is_update_of(x, upd.name, opts, bind[0] if bind else None, cs.get("env"))]
+                    g_ok = len(ups) == 1 and len(cs["effects"]) == 1 and isinstance(cs["result"], dict) and src(cs["result"]) == "Token::Test(Test::True)" and not cs.get("guard")
+                elif p is None or rx.is_catchall(p):
+                    i_ok = cs["result"] == "same" and not cs["effects"]
+                else:
+                    oth.append(p)
+        ap_ = [e for e in S.events if e["e"] == "apply" and e["fn"] == entry]
+        return bool(g_ok and i_ok and not oth and len(ap_) == 1 and ap_[0]["arg"]["v"] == "list" and ap_[0]["arg"]["from"] == t["id"])
+
+    EVm = None
+    if not _summary_decides_misplaced():
+        EVm, _why = innerval.cached(facts, b, an)
+    if EVm is not None:
+        EV = EVm
         okt = EV["ok_tokens"]
         dt = innerval.how(EV) + (" — " + EV["detail"] if not (okt and EV["ok_options"] and EV["ok_tree"]) else "")
         c.ob("C13.misplaced", inner, "tokens are mapped in order", okt, dt)
@@ -231,8 +260,11 @@ def run(c, facts, tier):
                         seen_ok.add(id(n))
     recv_same = opts is not None and all(id(n) in seen_ok for n in upd_calls)
     init_ok = opts is not None and opts["v"] == "fresh" and opts.get("ty") == "RunOptions" and opts.get("ctor") in ("default", "new")
-    if EV is not None:
-        c.ob("C13.last-wins", inner, "one options object: created from the defaults, updated in input order, returned", EV["ok_options"], innerval.how(EV) + (" — " + EV["detail"] if not EV["ok_options"] else ""))
+    EVl = None
+    if not (bool(upd_calls) and recv_same and init_ok):
+        EVl, _why = innerval.cached(facts, b, an)
+    if EVl is not None:
+        c.ob("C13.last-wins", inner, "one options object: created from the defaults, updated in input order, returned", EVl["ok_options"], innerval.how(EVl) + (" — " + EVl["detail"] if not EVl["ok_options"] else ""))
     else:
         c.ob(
             "C13.last-wins",
